@@ -61,7 +61,7 @@ ENGINES = {
         sources=["kernel/simheap.cpp", "kernel/engine.cpp", "wrap/wrap.cpp", "schedsim/main.cpp",
                  "schedsim/gen.cpp", "schedsim/sched.cpp", "schedsim/ts.cpp", "schedsim/temp.cpp"],
         first=["schedsim/static_user.cpp"],  # linked before the library's translation units
-        wraps=WRAPS, libs=[]),
+        wraps=WRAPS + ["pthread_mutex_lock", "pthread_mutex_unlock"], libs=[]),
     "compsim": dict(
         sources=["kernel/simheap.cpp", "kernel/engine.cpp", "wrap/wrap.cpp", "compsim/main.cpp",
                  "compsim/gen.cpp", "compsim/comps_a.cpp", "compsim/comps_b.cpp", "compsim/wrap.cpp",
